@@ -228,7 +228,7 @@ func (d *dbt) queryParked(point, name string, cond stmt.Expr, places []string, g
 		}
 		fired = id
 		for _, p := range places {
-			outs = append(outs, d.doPlace(p))
+			outs = append(outs, d.safePlace(p))
 		}
 	})
 	gb := "-"
@@ -297,7 +297,7 @@ func (d *dbt) parkedDirect(kind, name, key string, places []string) {
 		}
 		fired = true
 		for _, p := range places {
-			outs = append(outs, d.doPlace(p))
+			outs = append(outs, d.safePlace(p))
 		}
 	})
 	var got, want []string
@@ -366,4 +366,18 @@ func (d *dbt) parkedDirect(kind, name, key string, places []string) {
 	} else {
 		d.c.NonTrivial()
 	}
+}
+
+// safePlace: doPlace for use INSIDE a yield-point callback. A panic of the placement op (a mutated
+// flush can index out of range) must neither unwind through the parked reader — its recover would
+// attribute it to the query, and the callback's bookkeeping (one output per op) would be cut short —
+// nor end the process: it becomes a per-case failure with key "panic" and an "err panic" output.
+func (d *dbt) safePlace(op string) (out string) {
+	defer func() {
+		if r := recover(); r != nil {
+			d.c.Fail("panic", fmt.Sprintf("op %q (inside a parked reader) panicked: %v", op, r))
+			out = "err panic"
+		}
+	}()
+	return d.doPlace(op)
 }
